@@ -316,6 +316,14 @@ func (a *Actor) checkView(p *vos.Proc, when string) {
 	if a.St == nil {
 		return
 	}
+	if w.S != nil && w.S.HookReads && !w.inViewMon {
+		// fault-injection runs hook the reads of table files: the monitor's own reads are
+		// not operations of the process and must not take the injected fault
+		w.inViewMon = true
+		defer func() { w.inViewMon = false }()
+		w.S.InMonitor(func() { a.checkView(p, when) })
+		return
+	}
 	var names []string
 	var dump string
 	err := rtx.Safe(func() error {
